@@ -773,6 +773,27 @@ pub fn cipher_check(a: &Args) -> Report {
             }
           }
         }
+        // ... nor through the PUBLIC derivation helpers: every 32-byte window taken as the shared
+        // message r0 (key = derive_ske_key(window, epoch)) or as the client randomness
+        // (r0 = strobe_digest(window, [0]); key = derive_ske_key(r0, epoch))
+        for off in 0..bytes.len().saturating_sub(32) + 1 {
+          let w = &bytes[off..off + 32];
+          let mut k1 = vec![0u8; 16];
+          derive_ske_key(w, &c.cfg.e, &mut k1);
+          let mut r0 = [0u8; 32];
+          sta_rs::strobe_digest(w, &[&[0u8]], "star_derive_randoms", &mut r0);
+          let mut k2 = vec![0u8; 16];
+          derive_ske_key(&r0, &c.cfg.e, &mut k2);
+          for (how, k) in [("window as shared message", k1), ("window as client randomness", k2)] {
+            rep.evaluations += 1;
+            if let Guard::Done(p) = guard(|| ct.decrypt(&k, "star_encrypt")) {
+              if p == pts[ci] {
+                rep.violation("C03", "Message::to_bytes", "derivable-from-report-value",
+                  format!("the 32-byte window at offset {off} of the report, used as {how}, yields the payload key"), ctx.clone());
+              }
+            }
+          }
+        }
         rep.nontrivial(format!("win:{g}:{ci}"));
       }
     }
